@@ -1,4 +1,5 @@
 """C09 - reported error locations point at a real, consistent input location."""
+import os
 import random
 import re
 
@@ -244,9 +245,62 @@ def failpos_correspondence(tier, seed, lean):
     return cmp_, len(res), bad
 
 
+MESSAGE_FUNCTIONS = ('_extract_excerpt', '_caret_at', '_get_line_and_column', '_map_index_to_line_and_column')
+
+
+def shipped_parser(tier):
+    """sourcer/parser.py - the parser of grammar descriptions - is a generated module too and carries a copy of the runtime:
+    (a) its message functions are the ones of a freshly generated module (so Tie.excerpt_spec / Tie.linecol_spec, proved about the
+    translated runtime text, are about them as well), (b) the messages it produces for malformed descriptions satisfy the
+    property predicate, swept like the others over line length x column"""
+    import ast
+    import common
+    bad = []
+    n = 0
+    mod, _ = realrun.compile_grammar('start = "a"', include_source=True)
+    def funcs(src):
+        return {f.name: ast.dump(f) for f in ast.parse(src).body if isinstance(f, ast.FunctionDef)}
+    shipped = funcs(open(os.path.join(common.REPO, 'sourcer', 'parser.py')).read())
+    fresh = funcs(mod._source_code)
+    differ = [f for f in MESSAGE_FUNCTIONS if shipped.get(f) != fresh.get(f)]
+    if differ:
+        bad.append({'key': 'shipped-parser-functions', 'kind': 'model',
+                    'what': f'the message functions of sourcer/parser.py differ from those of a freshly generated module: {differ} '
+                            f'(the excerpt theorems are about the runtime text of the generator)'})
+    from sourcer import parser as P
+    ks = range(0, 100, 7) if tier == 'quick' else range(0, 100)
+    for k in ks:
+        for m in (0, 1, 30, 36, 37, 38, 39, 40, 41, 42, 43, 44, 45, 50, 90, 95):
+            for tail in ('', '\nother = "x"\n'):
+                text = 'start = "' + 'a' * k + '" @ "' + 'b' * m + '"' + tail
+                index = text.index('@')
+                n += 1
+                try:
+                    P.parse(text)
+                    bad.append(_viol('PartialParseError', text, index, 'the shipped parser accepted a description with a stray @'))
+                    continue
+                except Exception as exc:      # noqa: BLE001
+                    kind = type(exc).__name__
+                    pos = getattr(exc, 'last_position', None) or getattr(exc, 'position', None)
+                    if pos is None or pos.index != index:
+                        bad.append(_viol(kind, text, index, f'the shipped parser reports {pos} for a stray @ at {index}'))
+                        continue
+                    line, col = expected_linecol(text, index)
+                    if (pos.line, pos.column) != (line, col):
+                        bad.append(_viol(kind, text, index, f'line/column {(pos.line, pos.column)} instead of {(line, col)}'))
+                        continue
+                    msg = check_message(kind, str(exc), text, index, line, col)
+                    if msg:
+                        bad.append(_viol(kind, text, index, 'shipped description parser: ' + msg))
+    return n, bad
+
+
 def run(tier, seed, lean):
     rng = random.Random(seed)
     n1, nontrivial, samples, bad1 = sweep(tier)
+    n0, bad0 = shipped_parser(tier)
+    n1 += n0
+    bad1 = bad1 + bad0[:6]
     bad2 = []
     n2 = 0
     if 'Gen.Excerpt' not in lean.failed_modules and 'xdriver' not in lean.failed_modules:
